@@ -488,6 +488,18 @@ def _one_doc(ctx, r, judge, text, auto, lf, per_doc, lockstep):
         for p, x in (r.sample(subs, 5) if len(subs) > 5 else subs):
             if not isinstance(x, internal.Repeated):
                 judge.pair('copy', x, copy.deepcopy(x), {**base_replay, 'path': list(p), 'copy_sub': True}, expect=True, lock=False)
+        # ... and with the one piece of model state that is not a token (indent_by) set to something else first
+        holders = [(p, x) for p, x in subs if hasattr(x, 'indent_by')]
+        if holders:
+            a2 = parse(text, auto)
+            picks = r.sample(holders, min(len(holders), 2))
+            ibs = [r.choice(['  ', '\t', ' ']) for _ in picks]
+            for (p, _), ib in zip(picks, ibs):
+                by_path(a2, p).indent_by = ib
+            rp = {**base_replay, 'indent_by': [[list(p), ib] for (p, _), ib in zip(picks, ibs)]}
+            judge.pair('copy', a2, copy.deepcopy(a2), rp, expect=True, lock=False)
+            x2 = by_path(a2, picks[0][0])
+            judge.pair('copy', x2, copy.deepcopy(x2), {**rp, 'path': list(picks[0][0]), 'copy_sub': True}, expect=True, lock=False)
         # tokens
         judge_tokens(ctx, a, base_replay)
         judge_text_variants(ctx, text, auto, a)
@@ -537,6 +549,9 @@ def replay(ctx, data):
 
 def _replay(ctx, rep, text, auto, before):
     a, b0 = parse(text, auto), parse(text, auto)
+    for p, ib in rep.get('indent_by', []):
+        by_path(a, p).indent_by = ib
+        by_path(b0, p).indent_by = ib
     judge = Judge(ctx, False)
     site = rep.get('site')
     if site is None:
